@@ -22,6 +22,14 @@ Theorem C13_non_dataflow_wire_in_block_raises : forall pt root cfg src tgt k,
   ParentFirst pt -> parent_of pt root = None -> SiblingAncestor pt src tgt \/ InsideCfg pt cfg src ->
   NotDataflowPort k -> wire_up_block pt root cfg src tgt k = Err ValueError.
 Proof. exact non_dataflow_wire_in_block_raises. Qed.
+(* the root node (no parent) as a wire's source is always refused *)
+Theorem C13_parentless_source_raises : forall pt src tgt k, ParentFirst pt -> parent_of pt src = None ->
+  wire_up_dfg pt src tgt k = Err NoSiblingAncestor.
+Proof. exact parentless_source_raises. Qed.
+Theorem C13_parentless_source_in_block_raises : forall pt root cfg src tgt k,
+  ParentFirst pt -> parent_of pt root = None -> parent_of pt src = None ->
+  wire_up_block pt root cfg src tgt k = Err NotInSameCfg.
+Proof. exact parentless_source_in_block_raises. Qed.
 (* no spurious refusals *)
 Theorem C13_wire_with_relation_accepted : forall pt src tgt, ParentFirst pt -> SiblingAncestor pt src tgt ->
   exists o, wire_up_dfg pt src tgt KValue = Ok o.
@@ -101,6 +109,8 @@ Print Assumptions C13_wire_no_relation_raises.
 Print Assumptions C13_wire_outside_cfg_raises.
 Print Assumptions C13_non_dataflow_wire_raises.
 Print Assumptions C13_non_dataflow_wire_in_block_raises.
+Print Assumptions C13_parentless_source_raises.
+Print Assumptions C13_parentless_source_in_block_raises.
 Print Assumptions C13_wire_with_relation_accepted.
 Print Assumptions C13_wire_inside_cfg_accepted.
 Print Assumptions C13_case_out_of_range_raises.
